@@ -236,10 +236,12 @@ def diff_dicts(a, b, path="", config=None):
                         path or '/'))
             if not json_equal(avalue, bvalue):
                 differ = config.differs.get(subpath)
-                if differ is not None and differ is not diff:
+                default = getattr(config.differs, 'default_values', {}).get(subpath, diff)
+                if differ is not None and differ is not diff and differ is not default:
                     # A differ is configured for this (atomic) value,
                     # e.g. to ignore it: only report if it finds a diff
-                    # (entries equal to the default are just cached lookups)
+                    # (entries equal to the default are just cached lookups
+                    # of differs that expect values of one container type)
                     if not differ(avalue, bvalue, path=subpath, config=config):
                         continue
                 di.replace(key, bvalue)
